@@ -681,7 +681,7 @@ var allKinds = []string{"AssignVar", "Deref", "SetLit", "SetField", "SetElem", "
 
 // kinds added later: they are enabled in their own families and in the simulation only, so that
 // the edge sets of the older families stay what they were
-var newKinds = []string{"AppendN", "Tuple", "MapTuple"}
+var newKinds = []string{"AppendN", "Tuple", "MapTuple", "LoopDefine"}
 
 type family struct {
 	name      string
@@ -819,6 +819,8 @@ func families(quick bool) []family {
 		// multi-value appends (capacity by the runtime's growth rule), then appends from the same base / element updates
 		{name: "append", roots: []string{"l", "k", "ll"}, kinds: []string{"AppendN", "SetElem"}, init: "rich", steps: 2, maxSel: 1, maxIdx: 2, copyTypes: ct, native: 40},
 		{name: "append0", roots: []string{"l", "k", "ll"}, kinds: []string{"AppendN", "SetElem", "Slice2"}, init: "zero", steps: 2, maxSel: 1, maxIdx: 2, copyTypes: ct, native: 40},
+		// a variable defined by := in a loop body is a new variable at every iteration: slices of it kept across iterations
+		{name: "loopdef", roots: []string{"a", "s", "as", "ll", "ps"}, kinds: []string{"LoopDefine", "SetElem", "SetField"}, init: "rich", steps: 2, maxSel: 2, maxIdx: 2, copyTypes: ct, native: 20},
 	}
 	if !quick {
 		fs = []family{
@@ -835,6 +837,7 @@ func families(quick bool) []family {
 			{name: "tuple2", roots: []string{"a", "s", "l", "k", "m", "p", "q", "ps", "i"}, kinds: []string{"Tuple", "MapTuple", "AddrOf", "Slice2", "SetMapEntry"}, init: "rich", steps: 2, maxSel: 1, maxIdx: 3, copyTypes: ct},
 			{name: "append", roots: []string{"l", "k", "ll"}, kinds: []string{"AppendN", "SetElem", "Slice2"}, init: "rich", steps: 2, maxSel: 1, maxIdx: 2, copyTypes: ct, native: 20},
 			{name: "append0", roots: []string{"l", "k", "ll"}, kinds: []string{"AppendN", "SetElem", "Slice2"}, init: "zero", steps: 3, maxSel: 1, maxIdx: 2, copyTypes: ct, native: 20},
+			{name: "loopdef", roots: []string{"a", "b", "s", "as", "ll", "ps", "ms"}, kinds: []string{"LoopDefine", "SetElem", "SetField", "AssignVar"}, init: "rich", steps: 2, maxSel: 2, maxIdx: 2, copyTypes: ct, native: 10},
 		}
 	}
 	return fs
